@@ -1503,7 +1503,7 @@ class sptensor:
         >>> S.norm()  # doctest: +ELLIPSIS
         5.47722557...
         """
-        return np.linalg.norm(self.vals).item()
+        return np.linalg.norm(self.vals.astype(np.float64, copy=False)).item()
 
     def nvecs(self, n: int, r: int, flipsign: bool = True) -> np.ndarray:
         """
